@@ -27,6 +27,16 @@ from jsonpath.pointer import UNDEFINED
 from jsonpath.pointer import JSONPointer
 
 
+def _member_name(
+    parent: Mapping[object, object], target: Union[int, str]
+) -> Union[int, str]:
+    # JSON Pointer parsing turns index-like reference tokens into ints. Applied
+    # to a mapping, such a token is the member name with that spelling.
+    if isinstance(target, int) and target not in parent:
+        return str(target)
+    return target
+
+
 class Op(ABC):
     """One of the JSON Patch operations."""
 
@@ -75,7 +85,7 @@ class OpAdd(Op):
             else:
                 parent.insert(int(target), self.value)
         elif isinstance(parent, MutableMapping):
-            parent[target] = self.value
+            parent[_member_name(parent, target)] = self.value
         else:
             raise JSONPatchError(
                 f"unexpected operation on {parent.__class__.__name__!r}"
@@ -116,8 +126,10 @@ class OpAddNe(OpAdd):
                 parent.append(self.value)
             else:
                 parent.insert(int(target), self.value)
-        elif isinstance(parent, MutableMapping) and target not in parent:
-            parent[target] = self.value
+        elif isinstance(parent, MutableMapping):
+            target = _member_name(parent, target)
+            if target not in parent:
+                parent[target] = self.value
         return data
 
 
@@ -151,7 +163,7 @@ class OpAddAp(OpAdd):
             else:
                 parent.insert(int(target), self.value)
         elif isinstance(parent, MutableMapping):
-            parent[target] = self.value
+            parent[_member_name(parent, target)] = self.value
         else:
             raise JSONPatchError(
                 f"unexpected operation on {parent.__class__.__name__!r}"
@@ -184,7 +196,7 @@ class OpRemove(Op):
         elif isinstance(parent, MutableMapping):
             if obj is UNDEFINED:
                 raise JSONPatchError("can't remove nonexistent property")
-            del parent[self.path.parts[-1]]
+            del parent[_member_name(parent, self.path.parts[-1])]
         else:
             raise JSONPatchError(
                 f"unexpected operation on {parent.__class__.__name__!r}"
@@ -222,7 +234,7 @@ class OpReplace(Op):
         elif isinstance(parent, MutableMapping):
             if obj is UNDEFINED:
                 raise JSONPatchError("can't replace nonexistent property")
-            parent[self.path.parts[-1]] = self.value
+            parent[_member_name(parent, self.path.parts[-1])] = self.value
         else:
             raise JSONPatchError(
                 f"unexpected operation on {parent.__class__.__name__!r}"
@@ -260,7 +272,7 @@ class OpMove(Op):
         if isinstance(source_parent, MutableSequence):
             del source_parent[int(self.source.parts[-1])]
         if isinstance(source_parent, MutableMapping):
-            del source_parent[self.source.parts[-1]]
+            del source_parent[_member_name(source_parent, self.source.parts[-1])]
 
         # Adding at the target location, as per RFC 6902 section 4.4. This
         # includes "-", an index equal to the length and out of range errors.
